@@ -142,6 +142,22 @@ def run(ctx):
                 if bad:
                     viol.append({"input_hex": t.hex(), "input": t.decode("latin-1"), "history_hex": [damaged.hex()],
                                  "what": "after a rejected parse of %r on the same Parser, the result tree differs from the script as written: %s" % (damaged.decode("latin-1")[-50:], bad)})
+    # a script with NOTHING in it (empty, white space, comments only) through a Parser object that has parsed something else
+    # before — accepted, or refused after a finished command: its tree is empty, nothing of the earlier script is in it
+    for first in r.sample(gen_ok, min(len(gen_ok), 40)) + [b"keep; stop;", b'keep; stop "x";', b"if true { keep; } foo;"]:
+        for blank in (b"", b"   ", b"\r\n\t \n", b"# nothing here\n", b"/* nothing */ "):
+            p = Parser()
+            p.parse(first)
+            nreuse += 1
+            try:
+                ok = p.parse(blank)
+                n_after = len(p.result) if ok is True else None
+            except Exception as e:  # noqa
+                ok, n_after = "raised " + type(e).__name__, None
+            if ok is not True or n_after != 0:
+                viol.append({"input_hex": blank.hex(), "input": blank.decode("latin-1"), "history_hex": [first.hex()],
+                             "what": "a script with nothing in it, parsed by a Parser that had parsed %r before, gives %r with %r top-level command(s); a fresh Parser gives True with none"
+                             % (first.decode("latin-1")[:60], ok, n_after)})
     # the same scripts given as files: parse_file must build the tree parse builds from the file's bytes (CR, CRLF and all)
     import tempfile
     nfile = 0
